@@ -1,6 +1,6 @@
 module verifharness
 
-go 1.24.0
+go 1.25.0
 
 require (
 	github.com/klauspost/reedsolomon v1.12.0
